@@ -125,6 +125,13 @@ def main_property(mod, tier, seed, replay=None, out=sys.stdout):
     P = proofs["ok"]
     if not P:
         problems += proofs["problems"]
+    chk = None
+    if P and tier == "thorough" and not replay:
+        chk = core.coqchk(mod.PROPS)
+        if not chk["ok"]:
+            P = False
+            proofs["problems"].append("coqchk rejected the compiled proofs: " + chk["log"])
+            problems += proofs["problems"]
 
     # ---- 2. cases
     if replay:
@@ -304,6 +311,8 @@ def main_property(mod, tier, seed, replay=None, out=sys.stdout):
         "known_findings_reproduced": sorted(reproduced.keys()),
         "model_branch_tags": tagcount,
         "proof_wall_s": round(proofs["wall_s"], 2),
+        "coqchk": ("not run (quick tier)" if chk is None else
+                   {"ok": chk["ok"], "axioms": chk["axioms"], "cmd": "coqchk -o -silent -Q theories OCV <Props modules>"}),
         "harness_build_s": round(bsec, 2),
     }
     if hasattr(mod, "distribution"):
